@@ -120,10 +120,11 @@ def outSexp : Out → Sexp
   | .exec g k => Sexp.node "exec" [Sexp.ofNat g, .atom (kindStr k)]
   | .stop g => Sexp.node "stop" [Sexp.ofNat g]
   | .deregistered => .atom "deregistered"
-  | .recv _ => .atom "recv"
+  | .recv _ _ => .atom "recv"
   | .queued f => Sexp.node "queued" [sframeSexp f]
   | .started g id k => Sexp.node "started" [Sexp.ofNat g, Sexp.ofNat id, .atom (kindStr k)]
   | .consumed g n => Sexp.node "consumed" [Sexp.ofNat g, Sexp.ofNat n]
+  | .returned g => Sexp.node "returned" [Sexp.ofNat g]
 
 def handleLine (line : String) : String :=
   match Sexp.parse line with
